@@ -151,3 +151,36 @@ Theorem C02_votes32_agrees : forall batch gh c s0 K, (0 < batch)%nat ->
   (forall x, In x K -> cert_ok (fst x) /\ chg_ok x) ->
   init_store32 batch gh c = Ok s0 /\ run_blocks32 batch s0 K = run_blocks batch s0 K.
 Proof. exact votes32_agrees_valid. Qed.
+
+(* ------------------------------------------------------------------ SetBFTParameters and the certified height *)
+(* SetBFTParameters (api.go): accepted only within the bounds; either a no-op (the requested parameters are those in force) or
+   the new parameters are in force from the NEXT height on and only from there, the vote record keeps heights and window, a
+   continuing validator keeps its vote bookkeeping (minActiveHeight, largestHeightPrecommit) and a new validator may vote from
+   the activation height on. *)
+From LE Require Import BFT.SetParamsProofs.
+Theorem C02_set_parameters_spec : forall batch s pcT certT vals s' tip,
+  Inv tip s -> set_params batch s pcT certT vals = Ok s' ->
+  (length vals <= batch)%nat /\ (forall x, In x vals -> 0 < snd x) /\
+  total_weight vals / 3 + 1 <= pcT <= total_weight vals /\ total_weight vals / 3 + 1 <= certT <= total_weight vals /\
+  (s' = s \/
+   (let p := {| p_pv := total_weight vals * 2 / 3 + 1; p_pc := pcT; p_cert := certT; p_vals := sort_desc vals |} in
+    (forall h, tip + 1 <= h -> get_params (s_params s') h = Ok p) /\
+    (forall h, h <= tip -> get_params (s_params s') h = get_params (s_params s) h) /\
+    window s' = window s /\ v_mhp (s_votes s') = v_mhp (s_votes s) /\ v_mhpc (s_votes s') = v_mhpc (s_votes s) /\
+    v_mhc (s_votes s') = v_mhc (s_votes s) /\
+    (forall a, In a (v_act (s_votes s')) <->
+       exists x, In x vals /\
+         a = match find_active (v_act (s_votes s)) (fst x) with
+             | Some old => old
+             | None => {| a_addr := fst x; a_min := tip + 1; a_lhp := tip |}
+             end))).
+Proof. exact set_params_spec. Qed.
+(* non-vacuity: the genesis store satisfies the invariant and accepts a 4-validator set *)
+Example C02_set_parameters_example :
+  Inv 0 (genesis_store 0) /\ exists s', set_params 4 (genesis_store 0) 3 3 [(1,1);(2,1);(3,1);(4,1)] = Ok s' /\ s' <> genesis_store 0.
+Proof. split; [exact (genesis_inv 0)|]. eexists. split; [vm_compute; reflexivity|]. vm_compute. discriminate. Qed.
+
+(* maxHeightCertified is the height named by the newest non-empty aggregate commit of the chain (unchanged by empty ones) *)
+Theorem C02_certified_height_rule : forall batch s b s1, before_txs batch s b = Ok s1 ->
+  v_mhc (s_votes s1) = match h_cert b with Some h => h | None => v_mhc (s_votes s) end.
+Proof. exact certified_height_rule. Qed.
